@@ -124,13 +124,38 @@ func syncKind(ci ssa.CallInstruction) string {
 	if _, ok := v.(*ssa.FieldAddr); ok {
 		return "FileSync"
 	}
-	if ex, ok := v.(*ssa.Extract); ok {
-		if c, ok := ex.Tuple.(*ssa.Call); ok {
-			switch eventName(c) {
-			case "os.Open":
-				return "DirSync"
-			case "os.OpenFile", "os.Create":
-				return "FileSync"
+	kindOf := func(v ssa.Value) string {
+		if ex, ok := v.(*ssa.Extract); ok {
+			if c, ok := ex.Tuple.(*ssa.Call); ok {
+				switch eventName(c) {
+				case "os.Open":
+					return "DirSync"
+				case "os.OpenFile", "os.Create":
+					return "FileSync"
+				}
+			}
+		}
+		return ""
+	}
+	if k := kindOf(v); k != "" {
+		return k
+	}
+	// the handle lives in a local variable (it is shared with a deferred closure that closes it): every value
+	// stored into that variable decides
+	if u, ok := v.(*ssa.UnOp); ok {
+		if cell := rootCell(u.X); cell != nil {
+			kind := ""
+			for _, ref := range *cell.Referrers() {
+				if st, ok := ref.(*ssa.Store); ok && st.Addr == ssa.Value(cell) {
+					k := kindOf(st.Val)
+					if k == "" || kind != "" && kind != k {
+						return "Sync(?)"
+					}
+					kind = k
+				}
+			}
+			if kind != "" {
+				return kind
 			}
 		}
 	}
